@@ -19,7 +19,7 @@ VARIABLES h
 
 ASSUME TLCSet(1, <<>>)
 
-Cnt(st) == [req |-> st.reqn, end |-> st.ended, err |-> st.errs, listen |-> st.lstn,
+Cnt(st) == [req |-> st.reqn, end |-> st.ended, err |-> st.errs, listen |-> st.lstn, arm |-> st.armn,
             cease |-> IF st.ceased THEN 1 ELSE 0]
 
 XInit == \E i \in 1..NProg : s = CloseQuiet(Started(InitState(i))) /\ h = <<>>
